@@ -234,10 +234,14 @@ def _replay_tape(mod, prop, tier, values):
 
 
 def _has(r, prop, cls, known):
+    """cls is 'class' or ('class', 'sig')."""
     if r is None:
         return False
+    sig = None
+    if isinstance(cls, (tuple, list)):
+        cls, sig = cls
     for v in r.violations:
-        if v.prop == prop and v.cls == cls and match_known(v, known) is None:
+        if v.prop == prop and v.cls == cls and (sig is None or v.sig == sig) and match_known(v, known) is None:
             return True
     return False
 
@@ -373,8 +377,9 @@ def do_replay(prop, tier, path, quiet=False):
     out = _replay_job(rp['tape'])
     known = load_known(prop)
     want = rp.get('violation', {}).get('class')
+    wsig = rp.get('violation', {}).get('sig')
     got = [v for v in out['violations']]
-    hit = [v for v in got if v['class'] == want] if want else got
+    hit = [v for v in got if v['class'] == want and (wsig is None or v['sig'] == wsig)] if want else got
     if not quiet:
         for line in out['trace']:
             print('  |', line)
@@ -506,12 +511,12 @@ def main(argv=None):
             byclass = {}
             for item in sorted(total['viol'], key=lambda it: (len(it['tape']), it['index'])):
                 for v in item['violations']:
-                    byclass.setdefault(v['class'], (item, v))
+                    byclass.setdefault((v['class'], v['sig']), (item, v))
             os.makedirs(os.path.join(VERIF, 'replays'), exist_ok=True)
-            for cls, (item, v) in list(byclass.items())[:3]:
+            for (cls, vsig), (item, v) in list(byclass.items())[:4]:
                 sb = 90 if tier == 'quick' else 240
                 try:
-                    sh = ex.submit(_shrink_job, (item['tape'], cls, sb, 600)).result(timeout=sb + 120)
+                    sh = ex.submit(_shrink_job, (item['tape'], (cls, vsig), sb, 600)).result(timeout=sb + 120)
                 except Exception as e2:
                     sh = {'values': item['tape'], 'execs': 0, 'reproduced': False, 'error': repr(e2)}
                 values = sh['values']
@@ -519,8 +524,8 @@ def main(argv=None):
                     rep = ex.submit(_replay_job, values).result(timeout=180)
                 except Exception as e2:
                     rep = {'violations': [], 'trace': ['replay failed: %r' % (e2,)], 'digest': None, 'labels': []}
-                vv = [x for x in rep['violations'] if x['class'] == cls] or [v]
-                path = os.path.join(VERIF, 'replays', '%s-%s-%d.json' % (prop, re.sub(r'[^A-Za-z0-9_.-]', '_', cls)[:40], item['seed'] % 10 ** 10))
+                vv = [x for x in rep['violations'] if x['class'] == cls and x['sig'] == vsig] or [v]
+                path = os.path.join(VERIF, 'replays', '%s-%s-%d.json' % (prop, re.sub(r'[^A-Za-z0-9_.-]', '_', cls + '.' + vsig)[:60], item['seed'] % 10 ** 10))
                 with open(path, 'w') as f:
                     json.dump({'property': prop, 'check_version': CHECK_VERSION, 'seed': item['seed'],
                                'base_seed': seed, 'run_index': item['index'], 'tier': tier,
